@@ -43,7 +43,7 @@ def callee_kind(name):
         return 'one'
     if re.search(r'Float::(epsilon|min_positive_value)$|f(32|64)::EPSILON', n):
         return 'const'
-    if n.endswith('robust::orient2d'):
+    if n.endswith('robust::orient2d') or n.endswith('signed_area::signed_area'):
         return 'orient'
     if re.search(r'(nextafter|next_after)$', n):
         return 'same'
